@@ -510,7 +510,10 @@ fn check_shard_discontinuity(
     table_prefix: &'static str,
     proposed_insertion_range: Range<u64>,
 ) -> Result<(), Error> {
-    if let Ok((Some(stored_min), Some(stored_max))) = conn
+    // A failure of this query must propagate: the caller is inside a write transaction, and
+    // treating a database error as "no shards stored" would skip the discontinuity check and
+    // let the enclosing transaction commit.
+    if let (Some(stored_min), Some(stored_max)) = conn
         .query_row(
             &format!("SELECT MIN(shard_index), MAX(shard_index) FROM {table_prefix}_tree_shards"),
             [],
@@ -520,7 +523,7 @@ fn check_shard_discontinuity(
                 Ok((min, max))
             },
         )
-        .map_err(Error::Query)
+        .map_err(Error::Query)?
     {
         // If the ranges overlap, or are directly adjacent, then we aren't creating a
         // discontinuity. We can check this by comparing their start-inclusive,
